@@ -252,8 +252,18 @@ def withHeader (header : Option Str) (content : Str) : Str :=
   | some h => cs!"// " ++ h ++ [10] ++ content
   | none => content
 
+/-- `query_text_as_single_quoted_js_string_body` (operation_text.rs, repair dc59a0f of F13): the
+printer's own `\`+LF line continuations are kept, every other backslash and every apostrophe is
+escaped -/
+def escapeJsBody : Str → Str
+  | [] => []
+  | 92 :: 10 :: rest => 92 :: 10 :: escapeJsBody rest
+  | 92 :: rest => 92 :: 92 :: escapeJsBody rest
+  | 39 :: rest => 92 :: 39 :: escapeJsBody rest
+  | c :: rest => c :: escapeJsBody rest
+
 /-- query_text.ts / __refetch__query_text__N.ts -/
-def queryTextFile (queryText : Str) : Str := cs!"export default '" ++ queryText ++ cs!"';"
+def queryTextFile (queryText : Str) : Str := cs!"export default '" ++ escapeJsBody queryText ++ cs!"';"
 
 /-- normalization_ast.ts -/
 def normalizationAstFile (normAstText : Str) : Str :=
